@@ -4,6 +4,6 @@ EXTENDS Compaction, Json
 
 PutSeqs == UNION {[1..n -> {<<k, v>> : k \in Keys, v \in 1..2}] : n \in 0..2}
 WholeTemps == {[ex |-> TRUE, hdr |-> 2, ents |-> s, dur |-> Len(s)] : s \in PutSeqs}
-TornTemps == {[ex |-> TRUE, hdr |-> 2, ents |-> Append(s, Torn), dur |-> Len(s) + 1] : s \in PutSeqs}
+TornTemps == {[ex |-> TRUE, hdr |-> 2, ents |-> Append(s, t), dur |-> Len(s) + 1] : s \in PutSeqs, t \in {TornHdr, TornPay}}
 MCStaleTemps == {NoFile, NewFile, [NewFile EXCEPT !.hdr = 1]} \cup WholeTemps \cup TornTemps
 =============================================================================
